@@ -675,15 +675,210 @@ func (c *Ctx) fbin(op Op, a, b *Term) *Term {
 }
 func (c *Ctx) FAdd(a, b *Term) *Term { return c.fbin(OpFAdd, a, b) }
 func (c *Ctx) FSub(a, b *Term) *Term { return c.fbin(OpFSub, a, b) }
-func (c *Ctx) FMul(a, b *Term) *Term { return c.fbin(OpFMul, a, b) }
-func (c *Ctx) FDiv(a, b *Term) *Term { return c.fbin(OpFDiv, a, b) }
-func (c *Ctx) FNeg(a *Term) *Term    { return c.node(OpFNeg, a.Sort, 0, 0, "", a) }
-func (c *Ctx) FAbs(a *Term) *Term    { return c.node(OpFAbs, a.Sort, 0, 0, "", a) }
+func isFOne(t *Term) bool {
+	return t.Op == OpConst && t.Sort.K == KFP && fval(t.Sort, t.C) == 1
+}
+
+// NeverNaN reports (conservatively) that t cannot be NaN.
+func NeverNaN(t *Term) bool {
+	switch t.Op {
+	case OpConst:
+		f := fval(t.Sort, t.C)
+		return f == f
+	case OpSToF, OpUToF:
+		return true
+	case OpFNeg, OpFAbs, OpFRnd:
+		return NeverNaN(t.Args[0])
+	case OpFMul:
+		// finite non-NaN operand times a finite non-zero constant is never NaN
+		return (finiteNonZeroConst(t.Args[1]) && NeverNaN(t.Args[0])) || (finiteNonZeroConst(t.Args[0]) && NeverNaN(t.Args[1]))
+	case OpFDiv:
+		return finiteNonZeroConst(t.Args[1]) && NeverNaN(t.Args[0])
+	case OpIte:
+		return NeverNaN(t.Args[1]) && NeverNaN(t.Args[2])
+	}
+	return false
+}
+
+func finiteNonZeroConst(t *Term) bool {
+	if t.Op != OpConst {
+		return false
+	}
+	f := fval(t.Sort, t.C)
+	return f == f && f != 0 && !math.IsInf(f, 0)
+}
+
+func negConst(t *Term) bool {
+	return t.Op == OpConst && t.Sort.K == KFP && math.Signbit(fval(t.Sort, t.C)) && fval(t.Sort, t.C) == fval(t.Sort, t.C)
+}
+
+// The rewrites below are exact in IEEE-754 with round-to-nearest-even
+// (sign symmetry of rounding; x*1 = x/1 = x); SMT-LIB has a single NaN so
+// NaN sign/payload is not an issue.
+// pow2Exp returns k if t is the constant 2^k (|k| <= 1000).
+func pow2Exp(t *Term) (int, bool) {
+	if t.Op != OpConst || t.Sort != F64 {
+		return 0, false
+	}
+	f := fval(t.Sort, t.C)
+	if !(f > 0) || math.IsInf(f, 0) {
+		return 0, false
+	}
+	fr, e := math.Frexp(f)
+	if fr != 0.5 || e-1 < -1000 || e-1 > 1000 {
+		return 0, false
+	}
+	return e - 1, true
+}
+
+// intDerived reports that t is ±float(int) (zero, or magnitude in [1, 2^64]).
+func intDerived(t *Term) bool {
+	switch t.Op {
+	case OpSToF, OpUToF:
+		return t.Sort == F64
+	case OpFNeg, OpFAbs:
+		return intDerived(t.Args[0])
+	}
+	return false
+}
+
+// scalePow2 implements (base*2^K) scaled by 2^k exactly: scaling an
+// int-derived double by a power of two with |exponent| <= 900 never rounds.
+func (c *Ctx) scalePow2(a *Term, k int) *Term {
+	base, K := a, 0
+	if a.Op == OpFMul {
+		if e, ok := pow2Exp(a.Args[1]); ok && intDerived(a.Args[0]) {
+			base, K = a.Args[0], e
+		}
+	}
+	if !intDerived(base) {
+		return nil
+	}
+	n := K + k
+	if n < -900 || n > 900 {
+		return nil
+	}
+	if n == 0 {
+		return base
+	}
+	return c.fbin(OpFMul, base, c.F64C(math.Ldexp(1, n)))
+}
+
+func (c *Ctx) FMul(a, b *Term) *Term {
+	if a.Op == OpConst && b.Op != OpConst {
+		a, b = b, a
+	}
+	if isFOne(b) {
+		return a
+	}
+	if k, ok := pow2Exp(b); ok && a.Op != OpConst && a.Op != OpFNeg {
+		if r := c.scalePow2(a, k); r != nil {
+			return r
+		}
+	}
+	if a.Op == OpFNeg {
+		return c.FNeg(c.FMul(a.Args[0], b))
+	}
+	if b.Op == OpFNeg {
+		return c.FNeg(c.FMul(a, b.Args[0]))
+	}
+	if negConst(b) && a.Op != OpConst {
+		return c.FNeg(c.FMul(a, c.FC(b.Sort, -fval(b.Sort, b.C))))
+	}
+	return c.fbin(OpFMul, a, b)
+}
+func (c *Ctx) FDiv(a, b *Term) *Term {
+	if isFOne(b) {
+		return a
+	}
+	if k, ok := pow2Exp(b); ok && a.Op != OpConst && a.Op != OpFNeg {
+		if r := c.scalePow2(a, -k); r != nil {
+			return r
+		}
+	}
+	if a.Op == OpFNeg {
+		return c.FNeg(c.FDiv(a.Args[0], b))
+	}
+	if b.Op == OpFNeg {
+		return c.FNeg(c.FDiv(a, b.Args[0]))
+	}
+	if negConst(b) && a.Op != OpConst {
+		return c.FNeg(c.FDiv(a, c.FC(b.Sort, -fval(b.Sort, b.C))))
+	}
+	return c.fbin(OpFDiv, a, b)
+}
+func (c *Ctx) FNeg(a *Term) *Term {
+	if a.Op == OpFNeg {
+		return a.Args[0]
+	}
+	return c.node(OpFNeg, a.Sort, 0, 0, "", a)
+}
+func (c *Ctx) FAbs(a *Term) *Term {
+	switch a.Op {
+	case OpFNeg, OpFAbs:
+		return c.FAbs(a.Args[0])
+	case OpFMul:
+		return c.FMul(c.FAbs(a.Args[0]), c.FAbs(a.Args[1]))
+	case OpFDiv:
+		return c.FDiv(c.FAbs(a.Args[0]), c.FAbs(a.Args[1]))
+	}
+	return c.node(OpFAbs, a.Sort, 0, 0, "", a)
+}
 func (c *Ctx) FSqrt(a *Term) *Term   { return c.node(OpFSqrt, a.Sort, 0, 0, "", a) }
-func (c *Ctx) FLt(a, b *Term) *Term  { return c.node(OpFLt, Bool, 0, 0, "", a, b) }
-func (c *Ctx) FLe(a, b *Term) *Term  { return c.node(OpFLe, Bool, 0, 0, "", a, b) }
-func (c *Ctx) FEq(a, b *Term) *Term  { return c.node(OpFEq, Bool, 0, 0, "", a, b) }
+func (c *Ctx) FLt(a, b *Term) *Term {
+	if a == b {
+		return c.ff
+	}
+	if a.Op == OpConst && b.Op != OpConst {
+		if r := c.cmpConst(b, 1, fval(a.Sort, a.C)); r != nil {
+			return r
+		}
+	}
+	if b.Op == OpConst && a.Op != OpConst {
+		if r := c.cmpConst(a, 3, fval(b.Sort, b.C)); r != nil {
+			return r
+		}
+	}
+	return c.node(OpFLt, Bool, 0, 0, "", a, b)
+}
+func (c *Ctx) FLe(a, b *Term) *Term {
+	if a == b && NeverNaN(a) {
+		return c.tt
+	}
+	if a.Op == OpConst && b.Op != OpConst {
+		if r := c.cmpConst(b, 0, fval(a.Sort, a.C)); r != nil {
+			return r
+		}
+	}
+	if b.Op == OpConst && a.Op != OpConst {
+		if r := c.cmpConst(a, 2, fval(b.Sort, b.C)); r != nil {
+			return r
+		}
+	}
+	return c.node(OpFLe, Bool, 0, 0, "", a, b)
+}
+func (c *Ctx) FEq(a, b *Term) *Term {
+	if a == b && NeverNaN(a) {
+		return c.tt
+	}
+	if a.Op == OpConst && b.Op != OpConst {
+		a, b = b, a
+	}
+	if b.Op == OpConst && a.Op != OpConst {
+		k := fval(b.Sort, b.C)
+		if r1 := c.cmpConst(a, 0, k); r1 != nil {
+			if r2 := c.cmpConst(a, 2, k); r2 != nil {
+				return c.And(r1, r2)
+			}
+		}
+	}
+	return c.node(OpFEq, Bool, 0, 0, "", a, b)
+}
 func (c *Ctx) FRnd(a *Term, mode int) *Term {
+	// math.Round (ties away from zero) and trunc are sign symmetric
+	if a.Op == OpFNeg && (mode == 0 || mode == 3 || mode == 4) {
+		return c.FNeg(c.FRnd(a.Args[0], mode))
+	}
 	return c.node(OpFRnd, a.Sort, mode, 0, "", a)
 }
 func (c *Ctx) SToF(a *Term, s Sort) *Term { return c.node(OpSToF, s, 0, 0, "", a) }
